@@ -1,5 +1,6 @@
 import PlzVerif.Lemmas.Sched
 import PlzVerif.Lemmas.SchedFacts
+import PlzVerif.Lemmas.SchedRun
 import PlzVerif.Generated.C04
 /-!
 C04  Each action runs once, and only after its dependencies succeeded.
@@ -8,6 +9,12 @@ Model: `Model/Sched.lean` — one `Action` per atomic action of `queueResolvedTa
 `addPendingBuild`, `taskDone`, `Stop`, the dispatcher/worker goroutines of `plz.Run` and `build.Build`.
 All theorems are over `Reach`: every dependency relation `deps` (diamonds, fan-in, cycles even), every number of
 workers, activations arriving from anywhere at any time, every interleaving.
+
+Scope (what the model leaves out, stated once): local execution only (`runRemotely = false`: on the remote path
+build_step.go:362-376 logs `TargetBuilt` and a failing `EnsureDownloaded` then logs a failure as well — a second
+terminal report); no `--prepare`/`--shell` (`errStop`: `SetState(Stopped)` without `FinishBuild`, build_step.go:67-70,
+so no action produces `.stopped`); no test steps (test_step.go:288 moves Built → Stopped); no post-build functions;
+`buildTarget` is one `workerOk`/`workerFail` step (its state changes and reports are pinned by the `sk_buildTarget` fact).
 -/
 namespace PlzVerif.Props.C04
 open PlzVerif.Sched
@@ -28,12 +35,13 @@ def FactsOK : Prop :=
   C04.sk_queueResolvedTarget = expected_sk_queueResolvedTarget ∧
   C04.sk_queueTargetAsync = expected_sk_queueTargetAsync ∧ C04.sk_addPendingBuild = expected_sk_addPendingBuild ∧
   C04.sk_taskDone = expected_sk_taskDone ∧ C04.sk_Stop = expected_sk_Stop ∧
-  C04.sk_asyncError = expected_sk_asyncError ∧ C04.sk_Build = expected_sk_Build ∧ C04.sk_Run = expected_sk_Run
+  C04.sk_asyncError = expected_sk_asyncError ∧ C04.sk_Build = expected_sk_Build ∧ C04.sk_Run = expected_sk_Run ∧
+  C04.sk_buildTarget = expected_sk_buildTarget ∧ C04.initFacts = expectedInitFacts
 
 /-- Obligation a code change can break (each equation is between two literals: `rfl` checks it, and fails to
     check when the extracted text differs). -/
 theorem C04_facts_ok : FactsOK :=
-  ⟨by decide, rfl, rfl, rfl, rfl, rfl, rfl, by decide, rfl, rfl, rfl, rfl, rfl, rfl, rfl, rfl⟩
+  ⟨by decide, rfl, rfl, rfl, rfl, rfl, rfl, by decide, rfl, rfl, rfl, rfl, rfl, rfl, rfl, rfl, rfl, rfl⟩
 
 open PlzVerif.Sched.Facts in
 /-- …and the model agrees with those facts where it can be asked: `rank` is the enum position, the only state
@@ -81,10 +89,10 @@ theorem C04_reported_exactly_once {s : St} (h : Reach c s) (t : T) :
 
 /-- a target whose dependency failed is never started -/
 theorem C04_no_start_after_failed_dep {s : St} (h : Reach c s) (t d : T) (hd : d ∈ c.deps t)
-    (hbad : (s.st d).isBad = true) : s.starts t = 0 ∨ False := by
+    (hbad : (s.st d).isBad = true) : s.starts t = 0 := by
   have hi := reach_inv c h
   by_cases h1 : (s.st t).rank < TS.building.rank ∨ s.st t = .depFailed
-  · exact .inl (hi.starts0 t h1)
+  · exact hi.starts0 t h1
   · have e3 : TS.pending.rank = 3 := rfl
     have e4 : TS.building.rank = 4 := rfl
     have hb := (hi.depsDone t (by omega) (by intro e; exact h1 (.inr e)) d hd).2
@@ -100,6 +108,26 @@ theorem C04_state_monotone {s s' : St} (h : Reach c s) (hs : Step c s s') (t : T
   cases a <;> simp only [fire, queuerStep, qrt, spawn, taskDone] at ha <;>
     (repeat' split at ha) <;> (try cases ha) <;>
     (try simp only [upd, Queuer.live] at *) <;> (try grind [TS.rank, TS.isBuilt])
+
+/-- a chain 1 → 0 -/
+def chain2 : Cfg := ⟨2, fun t => if t = 1 then [0] else [], true⟩
+
+/-- target 1 requested; its queuer activates 0; 0 is queued, dispatched, built; 1's queuer passes its wait, 1 is
+    queued, dispatched and built; every goroutine finishes and `numPending` reaches 0 -/
+def chain2Schedule : List Action :=
+  [.activate 1 false, .queuer 0, .queuer 0, .queuer 1, .queuer 1, .queuer 1, .take 0, .workerStart 0,
+   .workerOk 0 .built false, .workerDone 0, .queuer 0, .queuer 0, .queuer 0, .take 1, .workerStart 1,
+   .workerOk 1 .cached true, .workerDone 1, .initDone]
+
+/-- **Non-vacuity in the kernel**: the reachable set contains a run in which both targets are built — each started
+    once, the dependency first, each reported once, the queues stopped by `numPending` reaching 0. -/
+theorem C04_witness_reachable_finished_build :
+    Reach chain2 (after chain2 chain2Schedule) ∧
+    (after chain2 chain2Schedule).st 0 = .built ∧ (after chain2 chain2Schedule).st 1 = .cached ∧
+    (after chain2 chain2Schedule).starts 0 = 1 ∧ (after chain2 chain2Schedule).starts 1 = 1 ∧
+    (after chain2 chain2Schedule).nres 1 = 1 ∧ (after chain2 chain2Schedule).res 1 = some .cached ∧
+    (after chain2 chain2Schedule).numPending = 0 ∧ (after chain2 chain2Schedule).stopped = true :=
+  ⟨after_reach chain2 _ rfl, rfl, rfl, rfl, rfl, rfl, rfl, rfl, rfl⟩
 
 /-- the scheduler's statement of C04 -/
 theorem C04_main {s : St} (h : Reach c s) (t : T) :
